@@ -36,6 +36,8 @@ pub struct Cfg {
     pub repeats: bool,
     /// Emit comments.
     pub comments: bool,
+    /// Probability (%) that a rule carries a modifier comment.
+    pub comment_pct: u32,
     /// Emit sun events.
     pub events: bool,
     /// Bias towards rules that interact (few selector kinds, same weekdays, overlapping spans).
@@ -47,6 +49,9 @@ pub struct Cfg {
     pub canonical_pct: u32,
     /// (internal) the rule being generated is restricted to canonical constructs
     pub canonical: bool,
+    /// Every rule gets a year selector made of bounded, non-wrapping ranges inside
+    /// `base_year ..= base_year + 7` (C17: dates outside those years see no rule at all).
+    pub force_bounded_year: bool,
 }
 
 impl Default for Cfg {
@@ -58,11 +63,13 @@ impl Default for Cfg {
             hostile: false,
             repeats: true,
             comments: true,
+            comment_pct: 18,
             events: true,
             dense: false,
             max_day_offset: 10,
             canonical_pct: 0,
             canonical: false,
+            force_bounded_year: false,
         }
     }
 }
@@ -513,6 +520,12 @@ fn gen_week_selector(ch: &mut Choices, cfg: &Cfg, out: &mut String) -> Vec<WeekR
 // ---- year selector -------------------------------------------------------------------------
 
 fn gen_year_range(ch: &mut Choices, cfg: &Cfg, out: &mut String) -> YearRange {
+    if cfg.force_bounded_year {
+        let a = (cfg.base_year + ch.int(0, 7) as i32) as u16;
+        let b = (a + ch.draw(4) as u16).min((cfg.base_year + 7) as u16);
+        out.push_str(&format!("{a}-{b}"));
+        return YearRange { range: Year(a)..=Year(b), step: 1 };
+    }
     let a = gen_year(ch, cfg);
     out.push_str(&a.to_string());
     match ch.weighted(&[35, 30, 15, if cfg.canonical { 0 } else { 20 }]) {
@@ -787,7 +800,7 @@ fn gen_rule(ch: &mut Choices, cfg: &Cfg, out: &mut String, operator: RuleOperato
     let mut ends_with_monthday = false;
     let start_len = out.len();
 
-    let shape = ch.weighted(&[86, 6, 4, 4]);
+    let shape = if cfg.force_bounded_year { 0 } else { ch.weighted(&[86, 6, 4, 4]) };
     let mut glue_modifier_ok = false; // the selector text ends with a time selector
     match shape {
         // 24/7
@@ -816,7 +829,7 @@ fn gen_rule(ch: &mut Choices, cfg: &Cfg, out: &mut String, operator: RuleOperato
         // general case
         _ => {
             let (p_year, p_md, p_week, p_wd, p_time) = if cfg.dense { (6, 15, 6, 60, 85) } else { (18, 35, 14, 50, 75) };
-            let has_year = ch.chance(p_year);
+            let has_year = cfg.force_bounded_year || ch.chance(p_year);
             let has_md = ch.chance(p_md);
             let has_week = ch.chance(p_week);
             let mut has_wd = ch.chance(p_wd);
@@ -837,7 +850,8 @@ fn gen_rule(ch: &mut Choices, cfg: &Cfg, out: &mut String, operator: RuleOperato
                 // AMBIGUITY: a year selector ending with a step ("2020-2030/2") directly
                 // followed by a dated month/date would glue the digits of the step and of the
                 // year. Same remedy.
-                let lone_year = matches!(day.year.as_slice(), [YearRange { range, step: 1 }] if range.start() == range.end())
+                let lone_year = !cfg.force_bounded_year
+                    && matches!(day.year.as_slice(), [YearRange { range, step: 1 }] if range.start() == range.end())
                     && !first_monthday_has_year(&day.monthday[0]);
                 let step_then_digit = out[..mark].ends_with(|c: char| c.is_ascii_digit())
                     && out[..mark].contains('/')
@@ -912,7 +926,7 @@ fn gen_rule(ch: &mut Choices, cfg: &Cfg, out: &mut String, operator: RuleOperato
         out.push_str(word);
         ends_with_monthday = false;
     }
-    if cfg.comments && (comment_only || ch.chance(18)) {
+    if cfg.comments && (comment_only || ch.chance(cfg.comment_pct)) {
         let c = gen_comment_text(ch, cfg.hostile);
         if out.len() > start_len && ch.chance(85) {
             out.push(' ');
